@@ -29,7 +29,9 @@ ASSUMPTIONS = [
     "modules always contain at least one doctest (pytest exits 5 on an empty collection) and do not use the pytest-only "
     "'# pytest.skip' marker",
     "force-disabled doctests appear as skipped in pytest and are omitted by the native runner (the documented difference)",
-    "both front ends run from an empty working directory: no stray pytest.ini / pyproject.toml",
+    "both front ends run from a working directory that is empty or holds a pytest.ini naming other xdoctest_options while "
+    "explicit options are given to both; without explicit options the native runner alone reads that file (and "
+    "pyproject.toml), a difference between the two command lines rather than between the verdicts of a doctest",
 ]
 NSHARDS = {'quick': 16, 'thorough': 16}
 SHARD_TIMEOUT = {'quick': 1500, 'thorough': 6 * 3600}
@@ -164,6 +166,13 @@ def check_module(ctx, idx, seed):
         ctx.cell('conftest-fills-xdoctest_namespace')
     cwd = os.path.join(work, 'cwd')
     os.mkdir(cwd)
+    if options and idx % 3 == 1:
+        # a pytest.ini in the working directory that names other default options: an explicit --options /
+        # --xdoctest-options wins on both sides (without an explicit option the native runner alone reads the file: a
+        # difference of the two command lines that this check does not generate)
+        with open(os.path.join(cwd, 'pytest.ini'), 'w') as f:
+            f.write('[pytest]\nxdoctest_options = %s\n' % ('+SKIP' if options != '+SKIP' else '-NORMALIZE_WHITESPACE'))
+        ctx.cell('pytest.ini-names-other-options')
     case = {'index': idx, 'case_seed': seed}
     ctx.evaluation()
     exp = {t['ident']: outcome_under(t['kind'], t['outcome'], options) for t in om.tests}
